@@ -32,6 +32,9 @@ def observe(case):
         k0.clean_stereo()
         k0.kekule()
     except Exception as e:
+        if case.get('must'):     # an input that is known to be a valid aromatic or Kekule spelling: failing to convert it is a violation
+            empty = {'atoms': [], 'bonds': [], 'rings': []}
+            return {'exc': 'kekule:' + type(e).__name__, 'smi': case['smi'], 'k0': empty, 'a': empty, 'k1': empty, 'a2': empty, 'k2': empty, 'ar': empty, 'forms': [], 'back': []}
         return {'skip': type(e).__name__}
     if not any(b._order == 2 for *_, b in k0.bonds()):
         return {'skip': 'no-double-bond'}
@@ -116,7 +119,13 @@ def run(ck):
                'O=C1NN=C(Cc2ccccc2)c2ccccc12', 'O=C1N(C)N=C(C)c2ccccc12', 'O=C1NC(=O)c2ccccc2N1', 'O=C1N=C(C)Nc2ccccc12', 'S=C1N=Cc2ccccc2N1C', 'O=C1C=NNc2ccccc12', 'O=C1NN=Cc2cnccc12',
                'O=C1NN=Cc2sccc12', 'O=C1N=CN(C)c2ccccc12', 'N=C1NN=Cc2ccccc12', 'O=C1NN=Cc2cc3ccccc3cc12', 'O=C1NC=Cc2ccccc12', 'O=C1SC=Nc2ccccc12', 'O=C1OC=Nc2ccccc12']
     sel = chy.pick(corp, 200 if ck.quick else 3000, ck.seed)
-    cases = [{'key': s, 'smi': s, 'rs': rnd.randrange(1 << 30)} for s in sel + special + doc_pairs() + ring_zoo(rnd, 150 if ck.quick else 4000)]
+    # aromatic spellings with aromatic bonds in large rings, three-membered rings and anions (another toolkit's aromatic form of
+    # porphine, annulenes, cyclopropenylium, cyclononatetraenide, paracyclophane)
+    special += ['c1cc2cc3ccc(cc4nc(cc5ccc(cc1n2)[nH]5)C=C4)[nH]3', 'C1=Cc2cc3ccc(cc4ccc(cc5nc(cc1n2)C=C5)[nH]4)[nH]3', 'c1ccccccccccccc1', 'c1ccccccccccccccccc1', 'c1c[cH+]1',
+                '[cH-]1cccccccc1', 'c1cc2ccc1CCc1ccc(CC2)cc1', 'c1ccc2ccccccc2c1', 'c1ccn2cccc2c1', 'n12cccc1cccc2', 'c1ccn2ccnc2c1', 'c1cc2ccn(n2)c1'.replace('c1cc2ccn(n2)c1', 'c1ccn2nccc2c1'),
+                'O=c1cccc2ccccn12', 'c1csc2nccn12', 'c1cnc2cccnn12']
+    must = set(special)
+    cases = [{'key': s, 'smi': s, 'rs': rnd.randrange(1 << 30), 'must': s in must} for s in sel + special + doc_pairs() + ring_zoo(rnd, 150 if ck.quick else 4000)]
     seen, uc = set(), []
     for c in cases:
         if c['key'] not in seen:
